@@ -52,6 +52,6 @@ def run(tier, seed, replay=None):
         assumptions=["HDF5 itself is not modelled: the store model is the specification, the real library is the implementation under test (this also validates the "
                      "store assumptions on this HDF5 version)",
                      "run under AddressSanitizer / UBSan: a crash or report is a harness abort and counts as a violation",
-                     "the sign of a floating-point zero and NaN payloads are not distinguished; structured table rows (CptTable) and EigenSystem are not generated",
+                     "the sign of a floating-point zero and NaN payloads are not distinguished; EigenSystem objects are not generated (structured table rows are: integer / string / double columns, overwrites with the same, fewer and more rows)",
                      "a name is used for one kind only (attributes and datasets live in different HDF5 name spaces)"],
         trivial_tags=())
